@@ -714,11 +714,12 @@ func (viso *VirtualISO) read(buf []byte, off int64) (int64, error) {
 				offset += sizeBytes(n)
 			}
 
-			// fill remaining space with zeroes
+			// fill remaining space of file's last sector with zeroes
 			if fileItem.size%sectorSize > 0 && remain > 0 {
-				toWrite := sectorSize - fileItem.size%sectorSize
+				// we may already be somewhere inside the padding
+				toWrite := fileItem.rLBA.bytes() + fileItem.size.sectors().bytes() - offset
 				if remain < toWrite {
-					remain = toWrite
+					toWrite = remain
 				}
 
 				for i := sizeBytes(0); i < toWrite; i++ {
